@@ -152,11 +152,19 @@ void vf_run_case(Ctx& c, uint64_t index) {
     RenderOpt ro; sh.json_text = render_json(v, ro);
     sh.doc.shrinkToFit(); sh.filter.shrinkToFit();
   }
-  // sequential reference: the same per-thread workloads, one after the other
+  // sequential reference: the same per-thread workloads, one after the other.  In the first round of every process (and one
+  // round in four) the concurrent run comes FIRST and the reference afterwards, so that state the library initialises lazily
+  // on first use (function-local statics, tables built on demand) is still cold when the threads start.
+  static bool s_first_round = true;
+  bool concurrent_first = s_first_round || r.chance(1, 4);
+  s_first_round = false;
   std::vector<uint64_t> ref((size_t)T);
   std::string fail0;
-  for (int t = 0; t < T; t++) ref[(size_t)t] = thread_work(c.seed, index, t, sh, false, nullptr, &fail0);
-  if (!fail0.empty()) { c.violation("sequential-run-differs-from-model", fail0, "case " + std::to_string(index)); return; }
+  auto run_reference = [&]() { for (int t = 0; t < T; t++) ref[(size_t)t] = thread_work(c.seed, index, t, sh, false, nullptr, &fail0); };
+  if (!concurrent_first) {
+    run_reference();
+    if (!fail0.empty()) { c.violation("sequential-run-differs-from-model", fail0, "case " + std::to_string(index)); return; }
+  } else c.count("cold_or_concurrent_first_rounds");
   // concurrent run
   std::vector<uint64_t> got((size_t)T); std::vector<std::string> fails((size_t)T); std::vector<ThreadLog> logs((size_t)T);
   std::atomic<int> ready{0}; std::atomic<bool> go{false};
@@ -170,6 +178,10 @@ void vf_run_case(Ctx& c, uint64_t index) {
   go.store(true, std::memory_order_release);
   for (auto& x : th) x.join();
   std::string wit = std::to_string(T) + " threads, case " + std::to_string(index) + " (each: API history on own documents, parse/print/convert, const reads of a shared document)";
+  if (concurrent_first) {
+    run_reference();
+    if (!fail0.empty()) { c.violation("sequential-run-differs-from-model", fail0 + " (reference run after the concurrent run)", wit); return; }
+  }
   for (int t = 0; t < T; t++) {
     if (!fails[(size_t)t].empty()) c.violation("concurrent-run-differs-from-model", fails[(size_t)t], wit);
     else if (got[(size_t)t] != ref[(size_t)t]) c.violation("concurrent-run-differs-from-sequential", "thread " + std::to_string(t) + " produced other results than the same workload run alone", wit);
